@@ -487,6 +487,11 @@ def run(ctx):
         chk.bad(R5, DIRECT, 'pack_handle.truncate() after the inner loop', 'with no_holes the pack is no longer truncated at the end of the locked block: unreferenced bytes of known content stay in the pack',
                 where=f'{fn.module.relpath}:{fn.lineno}')
 
+    from .common import option_forwarding
+    R7 = chk.rule('C09.R7', 'no_holes / no_holes_read_twice are forwarded unchanged by every wrapper down to the direct-to-pack writer', 1)
+    nf = option_forwarding(ctx, chk, R7, ['no_holes', 'no_holes_read_twice'], S)
+    chk.require(nf >= 4, f'expected >= 4 forwarding sites of no_holes/no_holes_read_twice, found {nf}')
+
     return chk.finish(
         explanation=('Static analysis of the deduplication mechanisms: a decision-tree typestate on ObjectWriter.__exit__ (exists / checksum / replace), '
                      'dominance of the already-indexed filter over every pack write in pack_all_loose, an append-handle typestate (seek must be followed by '
